@@ -1,5 +1,5 @@
 (* Run/Main.v — dispatch on the family code (first integer of a case). *)
-From FB Require Import Sem.Base Run.Codec Run.Api Run.Rf Run.Adapters Run.Tokio.
+From FB Require Import Sem.Base Run.Codec Run.Api Run.Rf Run.Adapters Run.Tokio Run.TokioAdapters.
 Open Scope Z_scope.
 Definition run_case (chk : bool) (l : list Z) : list Z :=
   match l with
@@ -15,6 +15,8 @@ Definition run_case (chk : bool) (l : list Z) : list Z :=
       else if fam =? 21 then run_apollstep chk t
       else if fam =? 22 then run_arf chk t
       else if fam =? 25 then run_arfstep chk t
+      else if fam =? 23 then run_achain chk t
+      else if fam =? 24 then run_atake chk t
       else if fam =? 9 then run_rfstep chk t
       else []
   | [] => []
